@@ -993,7 +993,7 @@ class GitBranch(ForeignBranch):
             return None
 
         try:
-            ref = cs.get((b"branch", remote), b"merge")
+            ref = cs.get((b"branch", self.name.encode("utf-8")), b"merge")
         except KeyError:
             ref = b"HEAD"
 
